@@ -9,12 +9,15 @@ func init() {
 	register(&Prop{
 		ID:        "C39",
 		Level:     "other",
-		Technique: "removal-path rules (invalidate-then-forget under the consumer lock, unconditional per-item bookkeeping), who-may-write table for the direct consumer's using set, shape rules for new-assignment discovery and the regex filter",
+		Technique: "removal-path rules (invalidate-then-forget under the consumer lock, unconditional per-item bookkeeping), who-may-write table for the direct consumer's using set, shape rules for new-assignment discovery and the regex filter, guard-fact rules for every selection update (no per-item guard, no guard on the consumer's own bookkeeping), sentinel writer/reader agreement for the cursor's never-consumed epoch",
 		Explanation: "(1) RemoveConsumePartitions invalidates the removed set with assignPartitions(assignInvalidateMatching, d.tps) under c.mu and then, for every removed (topic, partition) unconditionally, removes it from using, from the selection mirror m and from the pinned-offset map ps (a partition left in ps is re-assigned by the next metadata update); " +
 			"(2) consumer.purgeTopics calls assignPartitions(assignPurgeMatching) and then, for every purged topic unconditionally, deletes it from using and reSeen (and from m and ps for the direct consumer): a stale using entry would stop the topic from ever being consumed again; " +
 			"(3) directConsumer.using gains entries only in findNewAssignments, from the candidate set minus what is already used; the candidate set takes only selected topics (m / regex verdict), skips internal topics under regex and topics without partitions, and adds the pinned partitions of selected topics; what it returns is assigned without invalidating; " +
-			"(4) the regex filter keeps a topic only if some include pattern matches and no exclude pattern matches (exclusions are applied after a positive match), remembers the verdict, and returns exactly the wanted topics.",
-		NotDecided: "eventual consumption of every selected partition (liveness), and the group consumer's equivalent bookkeeping beyond the purge path.",
+			"(4) the regex filter keeps a topic only if some include pattern matches and no exclude pattern matches (exclusions are applied after a positive match), remembers the verdict, and returns exactly the wanted topics; " +
+			"(5) every call that adds to the selection mirror m (AddConsumeTopics, AddConsumePartitions, initDirect) sits in a loop over the request itself (the parameter / the configured set), takes the loop's item as argument, is reached under no branch fact beyond those holding at the loop (no per-item guard, no continue before it), the loop is not guarded by a test of the direct consumer's own bookkeeping (tps, using, ps, reSeen, m, or a local derived from them) and has no early exit, and tps.storeTopics is called on the same path: m is what the user selected, tps is what metadata is loaded for, and membership in tps never gates a selection update; " +
+			"(6) cursor.unset unconditionally stores a constant negative lastConsumedEpoch (through setOffset, which is a whole-struct store of its argument, or by a field store) and clears the usable flag, and assignPartitions calls it on the walked used cursor in the invalidate-all and invalidate-matching arms; " +
+			"(7) sentinel writer/reader agreement: every constant lastConsumedEpoch stored in the package is negative, every cursorOffset literal gives the epoch explicitly (an omitted epoch is 0 = consumed), every comparison of the epoch with a constant puts all written sentinels on the same side, and migrateCursorTo re-validates and re-enables a moved cursor (cursor.use + epoch load) only under an epoch test that excludes every sentinel, so an unset (removed / never selected) partition is not resurrected by a leader move.",
+		NotDecided: "eventual consumption of every selected partition (liveness), the group consumer's equivalent bookkeeping beyond the purge path, whether unset also resets offset / lastConsumedTime / hwm (only the epoch sentinel read by migrateCursorTo is decided), and other routes by which an unset cursor could be re-enabled (pending list / epoch loads are only covered through the load filter of assignPartitions, not decided here).",
 		Run:        runC39,
 	})
 }
@@ -32,6 +35,7 @@ func runC39(c *Ctx) {
 	if m == nil {
 		return
 	}
+	c39round3(c, m)
 	if f := c.NeedFunc(m, "kgo.Client.RemoveConsumePartitions"); f != nil {
 		rule := "remove-invalidates-then-forgets"
 		g := f.Graph()
